@@ -170,8 +170,12 @@ def o163(ctx):
         ctx.finding(Q, "return value", "the result must be returned through correct_order() (requested axis order)", fn, m)
 
 
-def obligations():
+def _obligations():
     return [
         Obligation("O16.1", "extracted Fourier gain equals the exposure attenuation for every size/index/dose; layouts cancel; pairing", o161, floor=60),
         Obligation("O16.3", "TiltStack protocol: options plumbed, write after update, correct_order returned", o163, floor=5),
     ]
+
+
+def obligations():
+    return _obligations() + [effects_obligation("C16")]
